@@ -391,52 +391,50 @@ func checkDivisions(w *World, r *Report, reach map[*ssa.Function]bool) {
 			div := bo.Y
 			fl := &boolFlow{fn: fn, entry: false}
 			fl.edge = func(blk *ssa.BasicBlock, i int) bool {
-				v, trueIdx, ok := ifCond(blk)
-				if !ok {
-					return false
-				}
-				cmp, ok := v.(*ssa.BinOp)
-				if !ok {
-					return false
-				}
-				x, y, op := cmp.X, cmp.Y, cmp.Op
-				if sameValue(y, div) {
-					x, y = y, x
-					switch op {
-					case token.LSS:
-						op = token.GTR
-					case token.GTR:
-						op = token.LSS
-					case token.LEQ:
-						op = token.GEQ
-					case token.GEQ:
-						op = token.LEQ
+				return anyEdgeFact(blk, i, func(v ssa.Value, trueIdx int) bool {
+					cmp, ok := v.(*ssa.BinOp)
+					if !ok {
+						return false
 					}
-				}
-				if !sameValue(x, div) {
+					x, y, op := cmp.X, cmp.Y, cmp.Op
+					if sameValue(y, div) {
+						x, y = y, x
+						switch op {
+						case token.LSS:
+							op = token.GTR
+						case token.GTR:
+							op = token.LSS
+						case token.LEQ:
+							op = token.GEQ
+						case token.GEQ:
+							op = token.LEQ
+						}
+					}
+					if !sameValue(x, div) {
+						return false
+					}
+					c, ok := y.(*ssa.Const)
+					if !ok || c.Value == nil || c.Value.Kind() != constant.Int {
+						return false
+					}
+					k, _ := constant.Int64Val(c.Value)
+					onTrue := i == trueIdx
+					switch op {
+					case token.NEQ:
+						return k == 0 && onTrue
+					case token.EQL:
+						return k == 0 && !onTrue
+					case token.GTR:
+						return k >= 0 && onTrue
+					case token.GEQ:
+						return k >= 1 && onTrue
+					case token.LEQ:
+						return k >= 0 && !onTrue
+					case token.LSS:
+						return k >= 1 && !onTrue
+					}
 					return false
-				}
-				c, ok := y.(*ssa.Const)
-				if !ok || c.Value == nil || c.Value.Kind() != constant.Int {
-					return false
-				}
-				k, _ := constant.Int64Val(c.Value)
-				onTrue := i == trueIdx
-				switch op {
-				case token.NEQ:
-					return k == 0 && onTrue
-				case token.EQL:
-					return k == 0 && !onTrue
-				case token.GTR:
-					return k >= 0 && onTrue
-				case token.GEQ:
-					return k >= 1 && onTrue
-				case token.LEQ:
-					return k >= 0 && !onTrue
-				case token.LSS:
-					return k >= 1 && !onTrue
-				}
-				return false
+				})
 			}
 			fl.solve()
 			if fl.at(in) {
